@@ -1,1 +1,138 @@
 //! ntpd facade fragment "spawn": re-exports / wrappers (and per-run thread-local seams) for the world that owns it.
+//!
+//! Owned by world W4 (`/verif/sim/worlds/w4_spawn`). Compiled only under
+//! `--cfg pendulum_project_ntpd_rs_verif` as `ntpd::verif::spawn`.
+//!
+//! Contents:
+//! * re-exports of the spawner machinery (`spawner_task`, the `Spawner` trait,
+//!   the event types, the real `PoolSpawner` / `StandardSpawner` and their
+//!   configuration types);
+//! * H8: the per-run simulated resolver consulted by
+//!   `NormalizedAddress::lookup_host` (counts every query);
+//! * H9: the per-run replacement of the UDP `connect_address` reachability
+//!   probe in `resolve_single_ntp_server`, and the per-run `SpawnerId` counter.
+//!
+//! None of this calls into simkit: the simulator installs closures, so every
+//! decision is still taken (and recorded) on the simulator's side.
+
+use std::cell::{Cell, RefCell};
+use std::net::SocketAddr;
+
+pub use crate::daemon::config::{NormalizedAddress, NtpAddress, PoolSourceConfig, StandardSource};
+pub use crate::daemon::spawn::pool::{PoolSpawnError, PoolSpawner};
+pub use crate::daemon::spawn::standard::{StandardSpawnError, StandardSpawner};
+pub use crate::daemon::spawn::{
+    NtpSourceCreateParameters, SourceCreateParameters, SourceRemovalReason, SourceRemovedEvent,
+    SpawnAction, SpawnEvent, Spawner, SpawnerId, SystemEvent, spawner_task,
+};
+pub use crate::daemon::system::{MESSAGE_BUFFER_SIZE, NETWORK_WAIT_PERIOD};
+
+/// What the simulated resolver answers to one query.
+pub struct DnsReply {
+    /// simulated time the lookup takes before it returns
+    pub delay: std::time::Duration,
+    pub result: std::io::Result<Vec<SocketAddr>>,
+}
+
+type Resolver = Box<dyn FnMut(&str, u16) -> DnsReply>;
+type RouteCheck = Box<dyn FnMut(SocketAddr) -> std::io::Result<()>>;
+
+thread_local! {
+    static RESOLVER: RefCell<Option<Resolver>> = const { RefCell::new(None) };
+    static ROUTE: RefCell<Option<RouteCheck>> = const { RefCell::new(None) };
+    static DNS_QUERIES: Cell<u64> = const { Cell::new(0) };
+    static SPAWNER_ID: Cell<Option<u64>> = const { Cell::new(None) };
+}
+
+/// Start of a simulated run on this thread: spawner ids restart at 1, the
+/// query counter at 0, no resolver installed.
+pub fn reset() {
+    RESOLVER.with(|r| *r.borrow_mut() = None);
+    ROUTE.with(|r| *r.borrow_mut() = None);
+    DNS_QUERIES.with(|c| c.set(0));
+    SPAWNER_ID.with(|c| c.set(Some(1)));
+}
+
+/// Leave simulation mode on this thread.
+pub fn clear() {
+    RESOLVER.with(|r| *r.borrow_mut() = None);
+    ROUTE.with(|r| *r.borrow_mut() = None);
+    SPAWNER_ID.with(|c| c.set(None));
+}
+
+/// Install the simulated resolver for this run (thread).
+pub fn set_resolver(f: impl FnMut(&str, u16) -> DnsReply + 'static) {
+    RESOLVER.with(|r| *r.borrow_mut() = Some(Box::new(f)));
+}
+
+/// Install the simulated "is there a route" answer that replaces the real
+/// UDP `connect_address` probe. Without one (but with a resolver installed)
+/// every address is reachable.
+pub fn set_route_check(f: impl FnMut(SocketAddr) -> std::io::Result<()> + 'static) {
+    ROUTE.with(|r| *r.borrow_mut() = Some(Box::new(f)));
+}
+
+/// Number of `lookup_host` calls that reached the resolver seam in this run.
+pub fn dns_queries() -> u64 {
+    DNS_QUERIES.with(|c| c.get())
+}
+
+/// H8: called first thing by `NormalizedAddress::lookup_host`. `None` = no
+/// simulated resolver on this thread, use the real one.
+pub(crate) async fn sim_lookup_host(
+    server_name: &str,
+    port: u16,
+) -> Option<std::io::Result<Vec<SocketAddr>>> {
+    // The closure is called synchronously (nothing thread-local is held across
+    // the await, so the caller's future stays `Send`).
+    let reply = RESOLVER.with(|r| {
+        let mut r = r.borrow_mut();
+        let f = r.as_mut()?;
+        DNS_QUERIES.with(|c| c.set(c.get() + 1));
+        Some(f(server_name, port))
+    })?;
+    if !reply.delay.is_zero() {
+        tokio::time::sleep(reply.delay).await;
+    }
+    Some(reply.result)
+}
+
+/// H9: replaces the UDP `connect_address` probe. `None` = not simulated.
+pub(crate) fn sim_route_check(addr: SocketAddr) -> Option<std::io::Result<()>> {
+    let simulated = RESOLVER.with(|r| r.borrow().is_some());
+    if !simulated {
+        return None;
+    }
+    ROUTE.with(|r| match r.borrow_mut().as_mut() {
+        Some(f) => Some(f(addr)),
+        None => Some(Ok(())),
+    })
+}
+
+/// H9: per-run `SpawnerId` counter (`None` = use the process-global one).
+pub(crate) fn next_spawner_id() -> Option<u64> {
+    SPAWNER_ID.with(|c| {
+        let v = c.get()?;
+        c.set(Some(v + 1));
+        Some(v)
+    })
+}
+
+/// `NormalizedAddress::new_from_parts` is `pub(crate)`.
+pub fn normalized_address(server_name: &str, port: u16) -> NormalizedAddress {
+    NormalizedAddress::new_from_parts(server_name, port)
+}
+
+/// Read-only view of a `PoolSpawner` (filled by the probe in pool.rs).
+#[derive(Debug, Clone, PartialEq, Eq)]
+pub struct PoolView {
+    pub current: Vec<(u64, SocketAddr)>,
+    pub known_ips: Vec<SocketAddr>,
+}
+
+/// Read-only view of a `StandardSpawner` (filled by the probe in standard.rs).
+#[derive(Debug, Clone, PartialEq, Eq)]
+pub struct StandardView {
+    pub resolved: Option<SocketAddr>,
+    pub has_spawned: bool,
+}
